@@ -18,6 +18,8 @@ type CEnv struct {
 	frame  *Frame // Go scope lookups happen in this frame (nil: none)
 	pos    token.Pos
 	nbound *int
+	allowCalls bool
+	depth  int
 }
 
 func (env *CEnv) with(st *State) *CEnv {
@@ -264,7 +266,29 @@ func (x *Exec) resolveTypeName(ty string) types.Type {
 		ty = ty[1:]
 	}
 	var t types.Type
-	if o := types.Universe.Lookup(ty); o != nil {
+	if strings.HasPrefix(ty, "[]") {
+		el := x.resolveTypeName(ty[2:])
+		if el == nil {
+			return nil
+		}
+		t = types.NewSlice(el)
+		for ; ptr > 0; ptr-- {
+			t = types.NewPointer(t)
+		}
+		return t
+	}
+	if i := strings.Index(ty, "."); i > 0 {
+		for _, imp := range x.e.pkg.Types.Imports() {
+			if imp.Name() == ty[:i] || (ty[:i] == "pb" && imp.Name() == "protobuf") {
+				if o := imp.Scope().Lookup(ty[i+1:]); o != nil {
+					if tn, ok := o.(*types.TypeName); ok {
+						t = tn.Type()
+					}
+				}
+			}
+		}
+	}
+	if o := types.Universe.Lookup(ty); t == nil && o != nil {
 		if tn, ok := o.(*types.TypeName); ok {
 			t = tn.Type()
 		}
@@ -290,8 +314,7 @@ func (x *Exec) cquant(e *CExpr, env *CEnv) *Val {
 	var decls []string
 	var guards []string
 	for _, v := range e.Vars {
-		*env.nbound++
-		sym := fmt.Sprintf("%s!%d", v.Name, *env.nbound)
+		sym := fmt.Sprintf("%s!%d", v.Name, env.depth)
 		t := x.resolveTypeName(v.Type)
 		sort := SInt
 		var val *Val
@@ -300,8 +323,8 @@ func (x *Exec) cquant(e *CExpr, env *CEnv) *Val {
 			val = BoolV(sym)
 		} else {
 			val = IntV(sym, t)
-			if f := x.e.typeFact(t, sym); f != "" {
-				guards = append(guards, f)
+			if f := x.e.typeFact(t, sym); f != "" && (t == nil || isUnsigned(t) || intWidth(t) == 0) {
+				guards = append(guards, "(>= "+sym+" 0)")
 			} else if isRefType(t) {
 				guards = append(guards, "(>= "+sym+" 0)")
 			}
@@ -309,6 +332,7 @@ func (x *Exec) cquant(e *CExpr, env *CEnv) *Val {
 		decls = append(decls, "("+sym+" "+sort+")")
 		ne = ne.bind(v.Name, val)
 	}
+	ne.depth = env.depth + 1
 	// evaluation of the body may add facts mentioning bound variables; those must not leak.
 	nf := len(x.vc.facts)
 	body := x.ceval(e.X, ne)
@@ -334,28 +358,34 @@ func (x *Exec) cquant(e *CExpr, env *CEnv) *Val {
 	return nil
 }
 
-// dropBoundFacts removes facts added since nf that mention a bound variable (they would be ill-scoped).
+// dropBoundFacts: facts recorded while evaluating under a binder mention the bound variable.
+// They are unconditional truths about their terms (type ranges, representation invariants), so
+// they are universally closed over the bound variables and kept as background axioms.
 func (x *Exec) dropBoundFacts(nf int, decls []string) {
 	var syms []string
 	for _, d := range decls {
 		syms = append(syms, strings.Fields(strings.Trim(d, "()"))[0])
 	}
-	kept := x.vc.facts[:nf]
+	kept := append([]string(nil), x.vc.facts[:nf]...)
+	var closed []string
 	for _, f := range x.vc.facts[nf:] {
-		bad := false
-		for _, s := range syms {
+		var ds []string
+		for i, s := range syms {
 			if strings.Contains(f, s) {
-				bad = true
-				break
+				ds = append(ds, decls[i])
 			}
 		}
-		if bad {
+		if len(ds) > 0 {
 			delete(x.vc.factSet, f)
+			closed = append(closed, "(forall ("+strings.Join(ds, " ")+") "+f+")")
 		} else {
 			kept = append(kept, f)
 		}
 	}
 	x.vc.facts = kept
+	for _, c := range closed {
+		x.vc.Fact(c)
+	}
 }
 
 func (x *Exec) ccall(e *CExpr, env *CEnv) *Val {
@@ -423,6 +453,9 @@ func (x *Exec) ccall(e *CExpr, env *CEnv) *Val {
 		return ArrV("((as const (Array Int Bool)) false)", SArrB)
 	case "int", "uint64", "int64", "uint32", "int32":
 		return IntV(arg(0).S, nil)
+	case "allocated":
+		v := arg(0)
+		return BoolV(And("(>= "+v.S+" 0)", "(< "+v.S+" "+x.heapGet(env.st, allocKey, SInt)+")"))
 	case "fresh":
 		// fresh(x): x was allocated after the old state
 		v := arg(0)
@@ -441,6 +474,18 @@ func (x *Exec) ccall(e *CExpr, env *CEnv) *Val {
 		}
 		// spec bodies do not see the caller's lets/frame names except through parameters
 		return x.ceval(sp.Body, ne)
+	}
+	// a Go function under contract, used in a lemma: apply its contract (never its body)
+	if fi, ok := x.e.funcs[e.Name]; ok && env.allowCalls {
+		ct := x.e.db.Funcs[fi.Key]
+		if ct == nil {
+			cfail("function %s has no contract", e.Name)
+		}
+		var args []*Val
+		for i := range e.Args {
+			args = append(args, arg(i))
+		}
+		return x.applyContract(ct, fi.Obj, nil, args, nil, token.NoPos, env.st)
 	}
 	cfail("unknown spec function %s", e.Name)
 	return nil
